@@ -210,7 +210,14 @@ func (f *V2Frame) unmarshal(br *bufio.Reader) error {
 }
 
 func (f V2Frame) marshalTo(buf []byte, msgEncoded []byte) (int, error) {
+	if f.Message.GetID() > 0xFFFFFF {
+		return 0, fmt.Errorf("cannot send a message with an ID greater than 16777215 with a V2 frame")
+	}
+
 	msgLen := len(msgEncoded)
+	if msgLen > 0xFF {
+		return 0, fmt.Errorf("cannot send a payload longer than 255 bytes")
+	}
 
 	// header
 	buf[0] = V2MagicByte
